@@ -526,6 +526,13 @@ func (v *VC) evCall(x SCall, env *SpecEnv) TV {
 			return TV{T: "(ip-val " + a.T + ")", Typ: gt}
 		}
 		return TV{T: a.T, Typ: gt}
+	case "fresh":
+		// fresh(x): x was allocated during the call this postcondition describes
+		a := v.ev(x.Args[0], env)
+		if env.old == nil {
+			specPanic("fresh() is only meaningful in a postcondition")
+		}
+		return TV{T: fmt.Sprintf("(> (root %s) %s)", ptrOf(v.sortTV(a), a.T), v.clock(env.old.heap)), Typ: tBool}
 	case "ifaceptr":
 		a := v.ev(x.Args[0], env)
 		return TV{T: "(iface-ptr " + a.T + ")", Sort: "Ptr"}
